@@ -301,13 +301,17 @@ def translate_all():
 
 def run():
     defs, errors = translate_all()
-    L = ["/- GENERATED by harness/floattr.py from the current /repo source — do not edit.",
-         "   The float code of the log counters (`_counter2value`, the cell body of `_merge_log16/8`) as Lean `Float` programs. -/",
-         "namespace Sketchnu.Src", ""]
-    for n in ("counter2value", "merge_log16_cell", "merge_log8_cell", "linear_counting", "estimation_function"):
-        L.append(defs[n])
-    L.append("end Sketchnu.Src")
-    changed = ["FloatCells.lean"] if _write_if_changed(os.path.join(GEN, "FloatCells.lean"), "\n".join(L) + "\n") else []
+    changed = []
+    for fname, names, what in (("FloatCells.lean", ("counter2value", "merge_log16_cell", "merge_log8_cell"),
+                                "The float code of the log counters (`_counter2value`, the cell body of `_merge_log16/8`) as Lean `Float` programs."),
+                               ("FloatHll.lean", ("linear_counting", "estimation_function"),
+                                "The float helpers of the HyperLogLog estimator (`_linear_counting`, `_estimation_function`) as Lean `Float` programs.")):
+        L = ["/- GENERATED by harness/floattr.py from the current /repo source — do not edit.", f"   {what} -/", "namespace Sketchnu.Src", ""]
+        for n in names:
+            L.append(defs[n])
+        L.append("end Sketchnu.Src")
+        if _write_if_changed(os.path.join(GEN, fname), "\n".join(L) + "\n"):
+            changed.append(fname)
     return changed, errors
 
 
